@@ -31,10 +31,16 @@ pub open spec fn spec_authority(u: Url) -> Seq<char> { u.scheme@ + sep() + u.hos
 // the origin of a URL (WHATWG URL 4.7 / HTML 7.5 serialisation of a tuple origin): scheme "://" host [":" port], which is what
 // `spec_authority` spells; schemes with a tuple origin, as the url crate implements it
 pub open spec fn tuple_origin_scheme(s: Seq<char>) -> bool { s == "https"@ || s == "http"@ || s == "wss"@ || s == "ws"@ || s == "ftp"@ }
+pub uninterp spec fn spec_unicode_host(h: Seq<char>) -> Seq<char>;
 pub struct UrlOrigin { pub of: Ghost<Url> }
 impl UrlOrigin {
     // url crate: Origin::ascii_serialization (trusted accessor): scheme://host[:port] of a tuple origin ("null" for an opaque one)
     #[verifier::external_body] pub fn ascii_serialization(&self) -> (r: String) ensures tuple_origin_scheme(self.of@.scheme@) ==> r@ == spec_authority(self.of@) { unimplemented!() }
+    // Origin::unicode_serialization: the same with the host converted to Unicode (differs for an IDN host); not what WebAuthn's
+    // client data carries -- present so that a change to it is decided
+    #[verifier::external_body] pub fn unicode_serialization(&self) -> (r: String)
+        ensures tuple_origin_scheme(self.of@.scheme@) ==> r@ == self.of@.scheme@ + sep() + spec_unicode_host(self.of@.host@) + (match self.of@.port { Some(p) => seq![':'] + spec_port_text(p), None => Seq::empty() })
+    { unimplemented!() }
 }
 pub open spec fn spec_url_string(u: Url) -> Seq<char> {
     u.scheme@ + sep() + (match u.userinfo { Some(c) => c@ + seq!['@'], None => Seq::empty() }) + u.host@ + (match u.port { Some(p) => seq![':'] + spec_port_text(p), None => Seq::empty() }) + u.path@ + (match u.query { Some(q) => seq!['?'] + q@, None => Seq::empty() }) + (match u.fragment { Some(x) => seq!['#'] + x@, None => Seq::empty() })
